@@ -139,6 +139,41 @@ def run_specs(workdir, specs, tag):
     return vlib.read_jsonl(out)
 
 
+B_CHAIN = 'teleport_9000-11'
+
+
+def corpus():
+    """hand-written histories that run first on every check (boundary cases of the registry semantics)"""
+    g = lambda a, cs, ads: dict(k='gov', addr=a, chains=cs, addrs=ads)
+    m = lambda k, signer, chain, **kw: dict(dict(k=k, signer=signer, chain=chain, flavor='valid'), **kw)
+    tss = [dict(name='tss-one', acct=2)]
+    return [
+        # duplicates: the FIRST index wins; another chain's address is never used
+        dict(id=9001, seed=11, tss=tss, steps=[g('@acct0', [B_CHAIN, 'tss-one', B_CHAIN], ['0xFIRST', '0xOTHER', '0xSECOND']),
+                                               m('recv', 0, B_CHAIN), m('update', 0, B_CHAIN)]),
+        # re-registration REPLACES: the old chain is revoked
+        dict(id=9002, seed=12, tss=tss, steps=[g('@acct0', [B_CHAIN], ['0xA']), m('update', 0, B_CHAIN), m('recv', 0, B_CHAIN),
+                                               g('@acct0', ['ghost-net'], ['0xB']), m('update', 0, B_CHAIN), m('recv', 0, B_CHAIN),
+                                               m('update', 0, 'tss-one', new_tss=2), m('recv', 0, 'tss-one')]),
+        # TSS: only the TSS account (which must be a relayer of that chain); rotation of the TSS address
+        dict(id=9003, seed=13, tss=tss, steps=[g('@acct2', ['tss-one'], ['0xT']), g('@acct3', ['tss-one', B_CHAIN], ['0xU', '0xV']),
+                                               m('recv', 2, 'tss-one'), m('recv', 3, 'tss-one'), m('recv', 3, 'tss-one', flavor='tssproof'),
+                                               m('ack', 3, 'tss-one', flavor='tssproof', ack_relayer='0xT'),
+                                               m('ack', 2, 'tss-one', ack_relayer='0xt'), m('update', 3, 'tss-one', new_tss=3),
+                                               m('update', 2, 'tss-one', new_tss=3), m('recv', 2, 'tss-one'), m('recv', 3, 'tss-one'),
+                                               m('ack', 3, 'tss-one', ack_relayer='0XU', ack_code=1)]),
+        # the registry is keyed by the STRING: upper-case form of the same account is another record
+        dict(id=9004, seed=14, tss=tss, steps=[g('@ACCT1', [B_CHAIN], ['0xA']), m('update', 1, B_CHAIN), m('update', 1, B_CHAIN, upper=True),
+                                               m('recv', 1, B_CHAIN, upper=True), m('ack', 4, B_CHAIN, ack_relayer='0Xa'),
+                                               m('ack', 4, B_CHAIN, ack_relayer='0xZ'), m('ack', 4, B_CHAIN, flavor='zero')]),
+        # rejected by ValidateBasic: empty lists, mismatched lengths, bad chain id, bad address; genesis path without checks
+        dict(id=9005, seed=15, tss=tss, steps=[g('@acct0', [], []), g('@acct0', [B_CHAIN, 'tss-one'], ['0xA']), g('@acct0', ['ab'], ['0xA']),
+                                               g('notbech32', [B_CHAIN], ['0xA']), dict(k='raw', addr='@acct0', chains=['ghost-net', B_CHAIN], addrs=['0xA']),
+                                               m('recv', 0, B_CHAIN), m('update', 0, B_CHAIN), m('ack', 1, B_CHAIN, ack_relayer='0xA'),
+                                               dict(k='raw', addr='', chains=[B_CHAIN], addrs=['0xA'])]),
+    ]
+
+
 def gen_run(run, nproc, per, steps, tag='gen', seed_off=0):
     """run the generator in nproc processes (disjoint seeds derived from the run seed)"""
     def one(i):
@@ -300,11 +335,11 @@ def part_b(run):
                                    caller=CALLERS[r['caller']], call_data=r['args'], effect=r['effect'], state_unchanged=r['same'],
                                    note=r.get('note'), harness_seed=sd, variant=r['variant'],
                                    replay_hint='harness/bin/c06 -mode contracts -seed %d' % sd),
-                              name='replay_contract_%s_%s_%d.json' % (CONTRACTS[r['contract']], r['method'], r['caller']))
+                              name='replay_contract_s%d_%s_%s_%d_v%d.json' % (i, CONTRACTS[r['contract']], r['method'], r['caller'], r['variant']))
             else:
                 run.violation(dict(kind='contract-enumeration', code=k, what=KINDS.get(k), contract=r['contract'], method=r['method'],
                                    caller=CALLERS[r['caller']], note=r.get('note')), no_input=True,
-                              name='replay_contract_enum_%d.json' % idx)
+                              name='replay_contract_enum_s%d_%d.json' % (i, idx))
             if len(run.violations) >= 4:
                 break
         if undem and i == 0:
@@ -329,6 +364,15 @@ def part_b(run):
     return True
 
 
+def coqchk(run):
+    """thorough tier: independent re-check of the compiled closure of Props/C06 and Refuted/C06_refuted"""
+    rc, out = vlib.sh(['coqchk', '-silent', '-o', '-Q', vlib.THEORIES, 'Teleport', 'Teleport.Props.C06', 'Teleport.Refuted.C06_refuted'],
+                      cwd=vlib.COQ, timeout=1500)
+    ok = rc == 0 and 'Axioms:' in out and '<none>' in out.split('Axioms:')[1][:40]
+    run.coverage['coqchk'] = dict(rc=rc, axioms_none=ok, tail=out[-400:])
+    return ok
+
+
 def check(run):
     pr = run.proof_stage()
     ok, out = vlib.build_harness(['c06'])
@@ -337,11 +381,20 @@ def check(run):
                            explanation='the correspondence harness no longer builds against /repo'), no_input=True)
         return run.finish()
     nproc = 8
-    per = run.budget(16, 150)
+    per = run.budget(36, 300)
     steps = run.budget(40, 60)
     results, log = gen_run(run, nproc, per, steps)
+    if results is not None:
+        cres = run_specs(run.work, corpus(), 'corpus')
+        if cres is None:
+            results, log = None, 'corpus run failed'
+        else:
+            results = cres + results
     if results is None:
-        run.violation(dict(kind='harness-crashed', log=log[-3000:]), no_input=True)
+        run.violation(dict(kind='harness-crashed', stage='auth', log=log[-3000:],
+                           explanation='the part A harness (real chains, relayer registry, signed messages) crashed: the '
+                                       'set-up calls of the real code failed'), no_input=True)
+        part_b(run)  # the contract enumeration may still locate the cause
         return run.finish()
     mm, ff = evaluate(run.work, results)
     if mm is None:
@@ -394,6 +447,8 @@ def check(run):
                           name='replay_corr_h%d.json' % h, no_input=True)
         if not run.proof_ok():
             run.proof_violation()
+        elif not run.quick() and not coqchk(run):
+            run.violation(dict(kind='coqchk-failed', log=run.coverage['coqchk']['tail']), no_input=True)
     return run.finish()
 
 
@@ -402,6 +457,24 @@ def replay(path):
     work = os.path.join(vlib.ROOT, 'work', 'C06_replay')
     os.makedirs(work, exist_ok=True)
     ok, out = vlib.build_harness(['c06'])
+    if ok and rp.get('kind') == 'contract-access':
+        # re-run the enumeration with the recorded harness seed and re-check the recorded (method, caller, variant)
+        outp = os.path.join(work, 'replay_contracts.jsonl')
+        rc, o = vlib.run_harness('c06', ['-mode', 'contracts', '-seed', rp['harness_seed'], '-out', outp])
+        if rc != 0:
+            print('harness failed: %s' % o[-500:])
+            return 2
+        rows = [r for r in vlib.read_jsonl(outp) if r['contract'] >= 0 and r.get('args') == rp['call_data']
+                and CALLERS[r['caller']] == rp['caller'] and CONTRACTS[r['contract']] == rp['contract']]
+        fails, _ = eval_contracts(work, rows, 'replay_contracts')
+        for r in rows:
+            print('observed: %s.%s <- %s effect=%s state_unchanged=%s %s' % (rp['contract'], r['method'], rp['caller'], r['effect'],
+                                                                             r['same'], r.get('note', '')))
+        if fails is None or fails:
+            print('VIOLATION property=C06 replay=%s' % path)
+            return 1
+        print('replay passes on the current tree')
+        return 0
     if not ok or 'spec' not in rp:
         print('cannot replay: %s' % (out[-500:] if not ok else 'no spec in replay file (%s)' % rp.get('kind')))
         return 2
